@@ -441,9 +441,9 @@ Proof.
   intros j [Hj|Hj]; [|apply H8; now right]. apply in_app_or in Hj. destruct Hj as [Hj|[<-|[]]]; [apply H8; now left|exact Hi].
 Qed.
 
-Definition hide_instr (v : string -> bool) (f : func) (i : instr) : instr := map_refs (hide v f) (norm_instr f i).
-Definition hide_block (v : string -> bool) (f : func) (k : block) : block :=
-  mk_block (b_id k) (b_name k) (map (hide_instr v f) (b_ins k)).
+Definition hide_instr (c : tcfg) (v : string -> bool) (f : func) (i : instr) : instr := map_refs (hide v f) (norm_instr c f i).
+Definition hide_block (c : tcfg) (v : string -> bool) (f : func) (k : block) : block :=
+  mk_block (b_id k) (b_name k) (map (hide_instr c v f) (b_ins k)).
 
 Lemma sort_phi_in f ins p : In p (sort_phi f ins) <-> In p ins.
 Proof.
@@ -452,7 +452,7 @@ Proof.
   induction acc as [|a l IHl]; [cbn; tauto|]. cbn.
   destruct (pair_leb _ _); cbn; [tauto|]. rewrite IHl. tauto.
 Qed.
-Lemma norm_uses f i r : In r (instr_uses (norm_instr f i)) <-> In r (instr_uses i).
+Lemma norm_uses c f i r : In r (instr_uses (norm_instr c f i)) <-> In r (instr_uses i).
 Proof.
   destruct i; cbn [norm_instr instr_uses]; try tauto.
   rewrite !in_map_iff. split; intros ((b & x) & E & H); exists (b, x); (split; [exact E|]).
@@ -505,6 +505,7 @@ Proof.
 Qed.
 
 Section F5.
+Variable c : tcfg.
 Variable gn : list string.
 Hypothesis Hgn : NoDup gn.
 Variable f : func.
@@ -532,7 +533,7 @@ Proof.
     + cbn [ref_name]. now rewrite (find_def_self d Hd).
 Qed.
 Lemma sub_hide_instr gl ds d j : In d (func_defs f) -> (forall r, In r (instr_uses j) -> wf_ref gn f r = true) ->
-  map_refs (sub1 (def_name d) (Loc (def_id d))) (hide_instr (vis gl f ds) f j) = hide_instr (vis gl f (ds ++ [d])) f j.
+  map_refs (sub1 (def_name d) (Loc (def_id d))) (hide_instr c (vis gl f ds) f j) = hide_instr c (vis gl f (ds ++ [d])) f j.
 Proof.
   intros Hd Hr. unfold hide_instr. rewrite map_refs_comp. apply map_refs_ext. intros r Hin.
   apply sub_hide_ref; auto. apply Hr. now apply norm_uses in Hin.
@@ -621,14 +622,14 @@ Proof.
 Qed.
 Close Scope Z_scope.
 
-Lemma norm_def f i : instr_def (norm_instr f i) = instr_def i. Proof. destruct i; reflexivity. Qed.
-Lemma norm_term f i : is_terminator (norm_instr f i) = is_terminator i. Proof. destruct i; reflexivity. Qed.
-Lemma hide_def v f i : instr_def (hide_instr v f i) = instr_def i.
+Lemma norm_def c f i : instr_def (norm_instr c f i) = instr_def i. Proof. destruct i; reflexivity. Qed.
+Lemma norm_term c f i : is_terminator (norm_instr c f i) = is_terminator i. Proof. destruct i; reflexivity. Qed.
+Lemma hide_def c v f i : instr_def (hide_instr c v f i) = instr_def i.
 Proof. unfold hide_instr. now rewrite def_map_refs, norm_def. Qed.
-Lemma hide_term v f i : is_terminator (hide_instr v f i) = is_terminator i.
+Lemma hide_term c v f i : is_terminator (hide_instr c v f i) = is_terminator i.
 Proof. unfold hide_instr. now rewrite term_map_refs, norm_term. Qed.
 Lemma with_pend2 st p q : with_pend (with_pend st p) q = with_pend st q. Proof. reflexivity. Qed.
-Lemma rev_last_term v f l : match rev (map (hide_instr v f) l) with x :: _ => is_terminator x | [] => false end
+Lemma rev_last_term c v f l : match rev (map (hide_instr c v f) l) with x :: _ => is_terminator x | [] => false end
                            = match rev l with x :: _ => is_terminator x | [] => false end.
 Proof. rewrite <- map_rev. destruct (rev l); [reflexivity|]. cbn. apply hide_term. Qed.
 
@@ -664,7 +665,7 @@ Variable bs0 : list block.
 Variable is0 : list instr.
 Hypothesis Hrefs0 : forall j, (In j is0 \/ exists k, In k bs0 /\ In j (b_ins k)) -> forall r, In r (instr_uses j) -> wf_ref gn f r = true.
 Let v0 := vis gl f ds.
-Definition PInv (st : tst) := Inv gl fsd f ds bn (map (hide_block v0 f) bs0) (map (hide_instr v0 f) is0) st.
+Definition PInv (st : tst) := Inv gl fsd f ds bn (map (hide_block c v0 f) bs0) (map (hide_instr c v0 f) is0) st.
 
 Lemma find1 st r dty : PInv st -> wf_ref gn f r = true ->
   exists p, find_value c (ref_name f r) dty st = ((hide v0 f r, res_ty f v0 r dty), with_pend st p)
@@ -695,12 +696,12 @@ Lemma finish_hidden st p i d ds' :
   PInv st -> (forall x, pend_has (ts_pend st) x -> pend_has p x) ->
   instr_def i = Some d -> func_defs f = ds ++ d :: ds' ->
   (forall r, In r (instr_uses i) -> wf_ref gn f r = true) ->
-  hid_ok p (hide_instr v0 f i) ->
+  hid_ok p (hide_instr c v0 f i) ->
   match rev is0 with x :: _ => is_terminator x | [] => false end = false ->
   mem_str (def_name d) (bn ++ map def_name ds) = false ->
-  exists st', finish_val c (hide_instr v0 f i) (with_pend st p) = Ok st' /\
-    Inv gl fsd f (ds ++ [d]) bn (map (hide_block (vis gl f (ds ++ [d])) f) bs0)
-        (map (hide_instr (vis gl f (ds ++ [d])) f) (is0 ++ [i])) st'.
+  exists st', finish_val c (hide_instr c v0 f i) (with_pend st p) = Ok st' /\
+    Inv gl fsd f (ds ++ [d]) bn (map (hide_block c (vis gl f (ds ++ [d])) f) bs0)
+        (map (hide_instr c (vis gl f (ds ++ [d])) f) (is0 ++ [i])) st'.
 Proof.
   intros HI Hm Hd Hds Hri Hhid Hterm Hname. destruct d as [[v n] t].
   assert (Hin : In (v, n, t) (func_defs f)) by (rewrite Hds, in_app_iff; right; now left).
@@ -716,7 +717,7 @@ Proof.
     unfold func_instrs in Hj. apply in_flat_map in Hj. destruct Hj as (k & Hk & Hj).
     unfold uses_old in Hx. apply existsb_exists in Hx. destruct Hx as (r & Hr & Hx).
     now rewrite (Hno g k j Hg Hk Hj r Hr) in Hx. }
-  destruct (finish_ok c Hru1 Hru2 Hru3 gl fsd f ds bn _ _ (with_pend st p) (hide_instr v0 f i) v n t
+  destruct (finish_ok c Hru1 Hru2 Hru3 gl fsd f ds bn _ _ (with_pend st p) (hide_instr c v0 f i) v n t
               (Inv_pend _ _ _ _ _ _ _ _ _ HI Hm)) as (st' & E & HI'); auto.
   - now rewrite hide_def.
   - now rewrite rev_last_term.
@@ -728,27 +729,27 @@ Proof.
       replace (map (map_refs (sub1 n (Loc v))) (b_ins k)) with (b_ins k); [now destruct k|].
       rewrite <- (map_id (b_ins k)) at 1. apply map_ext_in. intros j Hj. symmetry. apply sub_no_old. eauto. }
     rewrite Ef in HI'.
-    assert (Eb : map (sub_block n (Loc v)) (map (hide_block v0 f) bs0) = map (hide_block (vis gl f (ds ++ [(v, n, t)])) f) bs0).
+    assert (Eb : map (sub_block n (Loc v)) (map (hide_block c v0 f) bs0) = map (hide_block c (vis gl f (ds ++ [(v, n, t)])) f) bs0).
     { rewrite map_map. apply map_ext_in. intros k Hk. unfold sub_block, hide_block. cbn [b_id b_name b_ins]. f_equal.
       rewrite map_map. apply map_ext_in. intros j Hj.
-      apply (sub_hide_instr gn Hgn f Hf gl ds (v, n, t) j Hin). apply Hrefs0. right. eauto. }
-    assert (Ei : map (map_refs (sub1 n (Loc v))) (map (hide_instr v0 f) is0) ++ [map_refs (sub1 n (Loc v)) (hide_instr v0 f i)]
-                 = map (hide_instr (vis gl f (ds ++ [(v, n, t)])) f) (is0 ++ [i])).
+      apply (sub_hide_instr c gn Hgn f Hf gl ds (v, n, t) j Hin). apply Hrefs0. right. eauto. }
+    assert (Ei : map (map_refs (sub1 n (Loc v))) (map (hide_instr c v0 f) is0) ++ [map_refs (sub1 n (Loc v)) (hide_instr c v0 f i)]
+                 = map (hide_instr c (vis gl f (ds ++ [(v, n, t)])) f) (is0 ++ [i])).
     { rewrite map_app. cbn [map]. f_equal.
       - rewrite map_map. apply map_ext_in. intros j Hj.
-        apply (sub_hide_instr gn Hgn f Hf gl ds (v, n, t) j Hin). apply Hrefs0. now left.
-      - f_equal. exact (sub_hide_instr gn Hgn f Hf gl ds (v, n, t) i Hin Hri). }
+        apply (sub_hide_instr c gn Hgn f Hf gl ds (v, n, t) j Hin). apply Hrefs0. now left.
+      - f_equal. exact (sub_hide_instr c gn Hgn f Hf gl ds (v, n, t) i Hin Hri). }
     rewrite Eb, Ei in HI'. exact HI'.
 Qed.
 Lemma addins_hidden st p i :
   PInv st -> (forall x, pend_has (ts_pend st) x -> pend_has p x) ->
-  instr_def i = None -> hid_ok p (hide_instr v0 f i) ->
+  instr_def i = None -> hid_ok p (hide_instr c v0 f i) ->
   match rev is0 with x :: _ => is_terminator x | [] => false end = false ->
-  exists st', add_ins (hide_instr v0 f i) (with_pend st p) = Ok st' /\
-    Inv gl fsd f ds bn (map (hide_block v0 f) bs0) (map (hide_instr v0 f) (is0 ++ [i])) st'.
+  exists st', add_ins (hide_instr c v0 f i) (with_pend st p) = Ok st' /\
+    Inv gl fsd f ds bn (map (hide_block c v0 f) bs0) (map (hide_instr c v0 f) (is0 ++ [i])) st'.
 Proof.
   intros HI Hm Hd Hhid Hterm.
-  destruct (addins_ok gl fsd f ds bn _ _ (with_pend st p) (hide_instr v0 f i) (Inv_pend _ _ _ _ _ _ _ _ _ HI Hm)) as (st' & E & HI'); auto.
+  destruct (addins_ok gl fsd f ds bn _ _ (with_pend st p) (hide_instr c v0 f i) (Inv_pend _ _ _ _ _ _ _ _ _ HI Hm)) as (st' & E & HI'); auto.
   - now rewrite hide_def.
   - now rewrite rev_last_term.
   - exists st'. split; [exact E|]. rewrite map_app. exact HI'.
@@ -785,30 +786,30 @@ Ltac andsplit H := repeat match type of H with (_ && _)%bool = true => let H2 :=
 Lemma instr_step st i ds' :
   PInv st ->
   wf_instr gn f i = true -> ctor_ok f i = true -> instr_floats_ok c fr fp i = true ->
-  (match i with ICopyBlob _ _ _ | IUndef _ _ _ => False | _ => True end) ->
+  rprintable_instr c (erase_instr fr c f i) = true ->
   match rev is0 with x :: _ => is_terminator x | [] => false end = false ->
   func_defs f = ds ++ (match instr_def i with Some d => [d] | None => [] end) ++ ds' ->
   (forall d, instr_def i = Some d ->
      mem_str (def_name d) (bn ++ map def_name ds) = false /\ def_id d = Pos.of_succ_nat (List.length ds)) ->
   let dsn := ds ++ match instr_def i with Some d => [d] | None => [] end in
-  exists st', resolve_instr c fp bmap (erase_instr fr f i) st = Ok st' /\
-     Inv gl fsd f dsn bn (map (hide_block (vis gl f dsn) f) bs0) (map (hide_instr (vis gl f dsn) f) (is0 ++ [i])) st'.
+  exists st', resolve_instr c fp bmap (erase_instr fr c f i) st = Ok st' /\
+     Inv gl fsd f dsn bn (map (hide_block c (vis gl f dsn) f) bs0) (map (hide_instr c (vis gl f dsn) f) (is0 ++ [i])) st'.
 Proof.
   intros HI Hwf Hct Hfl Hnc Hterm Hds Hdef. cbv zeta.
   assert (Hnext : ts_next st = Pos.of_succ_nat (List.length ds)) by (destruct HI as (_ & _ & H & _); exact H).
   unfold wf_instr in Hwf. apply andb_true_iff in Hwf. destruct Hwf as [Hwf Hphi].
   apply andb_true_iff in Hwf. destruct Hwf as [Hrefs Htg]. rewrite forallb_forall in Hrefs, Htg.
   assert (Hfin : forall d p, instr_def i = Some d -> (forall x, pend_has (ts_pend st) x -> pend_has p x) ->
-                 hid_ok p (hide_instr v0 f i) ->
-                 exists st', finish_val c (hide_instr v0 f i) (with_pend st p) = Ok st' /\
-                   Inv gl fsd f (ds ++ [d]) bn (map (hide_block (vis gl f (ds ++ [d])) f) bs0)
-                       (map (hide_instr (vis gl f (ds ++ [d])) f) (is0 ++ [i])) st').
+                 hid_ok p (hide_instr c v0 f i) ->
+                 exists st', finish_val c (hide_instr c v0 f i) (with_pend st p) = Ok st' /\
+                   Inv gl fsd f (ds ++ [d]) bn (map (hide_block c (vis gl f (ds ++ [d])) f) bs0)
+                       (map (hide_instr c (vis gl f (ds ++ [d])) f) (is0 ++ [i])) st').
   { intros d p Hd Hm Hh. rewrite Hd in Hds. cbn [app] in Hds. destruct (Hdef d Hd) as [Hn _].
     eapply finish_hidden; eauto. }
   assert (Hadd : forall p, instr_def i = None -> (forall x, pend_has (ts_pend st) x -> pend_has p x) ->
-                 hid_ok p (hide_instr v0 f i) ->
-                 exists st', add_ins (hide_instr v0 f i) (with_pend st p) = Ok st' /\
-                   Inv gl fsd f ds bn (map (hide_block v0 f) bs0) (map (hide_instr v0 f) (is0 ++ [i])) st').
+                 hid_ok p (hide_instr c v0 f i) ->
+                 exists st', add_ins (hide_instr c v0 f i) (with_pend st p) = Ok st' /\
+                   Inv gl fsd f ds bn (map (hide_block c v0 f) bs0) (map (hide_instr c v0 f) (is0 ++ [i])) st').
   { intros p Hd Hm Hh. eapply addins_hidden; eauto. }
   destruct i; cbn [instr_def ctor_ok instr_uses instr_targets] in *; try contradiction; cbn [erase_instr resolve_instr];
     try (destruct (Hdef _ eq_refl) as [_ Hv]; cbn [def_id fst] in Hv; rewrite Hnext, <- Hv);
@@ -857,6 +858,11 @@ Proof.
   - (* literal *) rewrite (unhexlify_hexlify _ Hct).
     destruct (Hfin _ (ts_pend st) eq_refl (fun x H => H)) as (st' & E & HI'); [intros x []|].
     rewrite with_pend_id in E. exists st'. split; [exact E|exact HI'].
+  - (* copyblob *)
+    destruct (find1 st dst Ptr HI (Hrefs dst (or_introl eq_refl))) as (p1 & E1 & HI1 & Hm1 & Hh1). rewrite E1.
+    destruct (find1 _ src Ptr HI1 (Hrefs src (or_intror (or_introl eq_refl)))) as (p2 & E2 & HI2 & Hm2 & Hh2). rewrite E2.
+    rewrite with_pend2 in *. cbn [ts_pend with_pend] in Hm2.
+    apply (Hadd p2 eq_refl); [auto|]. intros y [Hy|[Hy|[]]]; [apply Hm2, Hh1|apply Hh2]; auto.
   - (* phi *)
     apply andb_true_iff in Hphi. destruct Hphi as [Hnd Hblk]. rewrite forallb_forall in Hblk, Hct.
     change (map (fun p : bid * vref => (block_name f (fst p), ref_name f (snd p))) ins) with (map (pkey f) ins).
@@ -868,6 +874,10 @@ Proof.
     destruct (Hfin _ q eq_refl Hm) as (st' & E' & HI').
     { intros x Hx. cbn in Hx. rewrite map_map in Hx. apply in_map_iff in Hx. destruct Hx as (p & Ep & Hp). cbn in Ep. eauto. }
     exists st'. split; [exact E'|exact HI'].
+  - (* undefined *)
+    cbn [erase_instr rprintable_instr] in Hnc. destruct (fx_undef c); [|discriminate]. cbn [resolve_instr].
+    destruct (Hfin _ (ts_pend st) eq_refl (fun x H => H)) as (st' & E & HI'); [intros x []|].
+    rewrite with_pend_id in E. exists st'. split; [exact E|exact HI'].
   - (* callf *)
     destruct (find1 st callee Ptr HI (Hrefs callee (or_introl eq_refl))) as (p1 & E1 & HI1 & Hm1 & Hh1). rewrite E1.
     destruct (find_args_ok args _ HI1 (fun r H => Hrefs r (or_intror H))) as (p2 & E2 & HI2 & Hm2 & Hh2). rewrite E2.
@@ -928,7 +938,7 @@ Proof. unfold instrs_defs. apply flat_map_app. Qed.
 Definition fok (c : tcfg) (fr : Z -> string) (fp : string -> option Z) (gn : list string) (f : func) : Prop :=
   forall j, In j (func_instrs f) ->
     wf_instr gn f j = true /\ ctor_ok f j = true /\ instr_floats_ok c fr fp j = true /\
-    match j with ICopyBlob _ _ _ | IUndef _ _ _ => False | _ => True end.
+    rprintable_instr c (erase_instr fr c f j) = true.
 
 Section F7.
 Variable c : tcfg.
@@ -972,10 +982,10 @@ Proof.
 Qed.
 
 Lemma instrs_chain rest : forall is0 st, b_ins k = is0 ++ rest ->
-  Inv gl fsd f (dsof is0) bn (map (hide_block (vis gl f (dsof is0)) f) bs0) (map (hide_instr (vis gl f (dsof is0)) f) is0) st ->
-  exists st', resolve_instrs c fp bmap (map (erase_instr fr f) rest) st = Ok st' /\
-    Inv gl fsd f (dsof (is0 ++ rest)) bn (map (hide_block (vis gl f (dsof (is0 ++ rest))) f) bs0)
-        (map (hide_instr (vis gl f (dsof (is0 ++ rest))) f) (is0 ++ rest)) st'.
+  Inv gl fsd f (dsof is0) bn (map (hide_block c (vis gl f (dsof is0)) f) bs0) (map (hide_instr c (vis gl f (dsof is0)) f) is0) st ->
+  exists st', resolve_instrs c fp bmap (map (erase_instr fr c f) rest) st = Ok st' /\
+    Inv gl fsd f (dsof (is0 ++ rest)) bn (map (hide_block c (vis gl f (dsof (is0 ++ rest))) f) bs0)
+        (map (hide_instr c (vis gl f (dsof (is0 ++ rest))) f) (is0 ++ rest)) st'.
 Proof.
   induction rest as [|i rest IH]; intros is0 st E HI.
   - rewrite app_nil_r. exists st. split; [reflexivity|exact HI].
@@ -1015,15 +1025,15 @@ Proof.
 Qed.
 End Blk.
 
-Lemma hide_block_name v k : b_name (hide_block v f k) = b_name k. Proof. reflexivity. Qed.
+Lemma hide_block_name v k : b_name (hide_block c v f k) = b_name k. Proof. reflexivity. Qed.
 Lemma dsof_block bs0 k : dsof bs0 (b_ins k) = dsof (bs0 ++ [k]) [].
 Proof. unfold dsof. rewrite flat_map_app. cbn [flat_map]. now rewrite !app_nil_r. Qed.
 
 Lemma block_ok bs0 k bs1 st : f_blocks f = bs0 ++ k :: bs1 ->
-  Inv gl fsd f (dsof bs0 []) (map b_name bs0) (map (hide_block (vis gl f (dsof bs0 [])) f) bs0) [] st ->
-  exists st', resolve_block c fp bmap (erase_block fr f k) st = Ok st' /\
+  Inv gl fsd f (dsof bs0 []) (map b_name bs0) (map (hide_block c (vis gl f (dsof bs0 [])) f) bs0) [] st ->
+  exists st', resolve_block c fp bmap (erase_block fr c f k) st = Ok st' /\
     Inv gl fsd f (dsof (bs0 ++ [k]) []) (map b_name (bs0 ++ [k]))
-        (map (hide_block (vis gl f (dsof (bs0 ++ [k]) [])) f) (bs0 ++ [k])) [] st'.
+        (map (hide_block c (vis gl f (dsof (bs0 ++ [k]) [])) f) (bs0 ++ [k])) [] st'.
 Proof.
   intros Hb HI. pose proof HI as (H1 & H2 & H3 & H4 & H5 & H6 & H7 & H8).
   assert (Hnd : NoDup (map b_name (f_blocks f))) by exact (w_bnodup _ _ Hf).
@@ -1041,8 +1051,8 @@ Proof.
   assert (Hin : In k (f_blocks f)) by (rewrite Hb, in_app_iff; right; now left).
   unfold bmap. rewrite (blookup_number (f_blocks f) 1 k (w_bnodup _ _ Hf) (w_bids _ _ Hf) Hin). cbn [bind].
   match goal with |- context [resolve_instrs _ _ _ _ ?s] => set (st0 := s) end.
-  assert (HI0 : Inv gl fsd f (dsof bs0 []) (map b_name (bs0 ++ [k])) (map (hide_block (vis gl f (dsof bs0 [])) f) bs0)
-                    (map (hide_instr (vis gl f (dsof bs0 [])) f) []) st0).
+  assert (HI0 : Inv gl fsd f (dsof bs0 []) (map b_name (bs0 ++ [k])) (map (hide_block c (vis gl f (dsof bs0 [])) f) bs0)
+                    (map (hide_instr c (vis gl f (dsof bs0 [])) f) []) st0).
   { unfold Inv, st0. cbn [ts_ins ts_names ts_glob ts_loc ts_pend ts_next ts_funcs ts_blocks map].
     split; [exact H1|]. split; [exact H2|]. split; [exact H3|]. split; [|split; [exact H5|split; [reflexivity|split; [reflexivity|]]]].
     - intros x. rewrite map_app, !mem_str_app, H4, mem_str_app. cbn [map mem_str].
@@ -1063,10 +1073,10 @@ Proof.
 Qed.
 
 Lemma blocks_chain bs1 : forall bs0 st, f_blocks f = bs0 ++ bs1 ->
-  Inv gl fsd f (dsof bs0 []) (map b_name bs0) (map (hide_block (vis gl f (dsof bs0 [])) f) bs0) [] st ->
-  exists st', resolve_blocks c fp bmap (map (erase_block fr f) bs1) st = Ok st' /\
+  Inv gl fsd f (dsof bs0 []) (map b_name bs0) (map (hide_block c (vis gl f (dsof bs0 [])) f) bs0) [] st ->
+  exists st', resolve_blocks c fp bmap (map (erase_block fr c f) bs1) st = Ok st' /\
     Inv gl fsd f (func_defs f) (map b_name (f_blocks f))
-        (map (hide_block (vis gl f (func_defs f)) f) (f_blocks f)) [] st'.
+        (map (hide_block c (vis gl f (func_defs f)) f) (f_blocks f)) [] st'.
 Proof.
   induction bs1 as [|k bs1 IH]; intros bs0 st Hb HI.
   - rewrite app_nil_r in Hb. exists st. split; [reflexivity|].
@@ -1078,12 +1088,12 @@ Qed.
 End F7.
 
 (* ---- functions and modules *)
-Definition hide_func (gl : list string) (g : func) : func :=
+Definition hide_func (c : tcfg) (gl : list string) (g : func) : func :=
   mk_func (f_name g) (f_binding g) (f_ret g) (f_params g)
-          (map (hide_block (vis gl g (func_defs g)) g) (f_blocks g)).
-Definition MInv (gl : list string) (fs : list func) (st : tst) : Prop :=
+          (map (hide_block c (vis gl g (func_defs g)) g) (f_blocks g)).
+Definition MInv (c : tcfg) (gl : list string) (fs : list func) (st : tst) : Prop :=
   ts_glob st = E_glob gl /\ ts_loc st = [] /\ ts_next st = 1%positive /\ ts_names st = [] /\
-  ts_funcs st = map (hide_func gl) fs /\ ts_blocks st = [] /\ ts_ins st = [] /\
+  ts_funcs st = map (hide_func c gl) fs /\ ts_blocks st = [] /\ ts_ins st = [] /\
   (forall g k j, In g (ts_funcs st) -> In k (f_blocks g) -> In j (b_ins k) -> hid_ok (ts_pend st) j).
 
 Section M1.
@@ -1115,7 +1125,7 @@ Proof.
   unfold func_instrs. apply in_flat_map. eauto.
 Qed.
 Lemma sub_hide_func gl g s : gok g -> In s gn ->
-  sub_func s (Glob s) (hide_func gl g) = hide_func (gl ++ [s]) g.
+  sub_func s (Glob s) (hide_func c gl g) = hide_func c (gl ++ [s]) g.
 Proof.
   intros Hg Hs. unfold sub_func, hide_func. cbn [f_name f_binding f_ret f_params f_blocks]. f_equal.
   rewrite map_map. apply map_ext_in. intros k Hk. unfold sub_block, hide_block. cbn [b_id b_name b_ins]. f_equal.
@@ -1140,7 +1150,7 @@ Proof.
     + cbn. now apply mem_str_in.
 Qed.
 Lemma hidden_gn gl fs : (forall g, In g fs -> gok g) ->
-  forall g k j x, In g (map (hide_func gl) fs) -> In k (f_blocks g) -> In j (b_ins k) -> In (Unres x) (instr_uses j) -> In x gn.
+  forall g k j x, In g (map (hide_func c gl) fs) -> In k (f_blocks g) -> In j (b_ins k) -> In (Unres x) (instr_uses j) -> In x gn.
 Proof.
   intros Hfs g k j x Hg Hk Hj Hx. apply in_map_iff in Hg. destruct Hg as (g0 & <- & Hg0).
   cbn in Hk. apply in_map_iff in Hk. destruct Hk as (k0 & <- & Hk0). cbn in Hj. apply in_map_iff in Hj. destruct Hj as (j0 & <- & Hj0).
@@ -1149,8 +1159,8 @@ Proof.
 Qed.
 
 (* defining a module-level name *)
-Lemma define_glob gl fs st s : MInv gl fs st -> (forall g, In g fs -> gok g) -> In s gn ->
-  exists st', define_value c s (Glob s) Ptr false None st = Ok (None, st') /\ MInv (gl ++ [s]) fs st'.
+Lemma define_glob gl fs st s : MInv c gl fs st -> (forall g, In g fs -> gok g) -> In s gn ->
+  exists st', define_value c s (Glob s) Ptr false None st = Ok (None, st') /\ MInv c (gl ++ [s]) fs st'.
 Proof.
   intros (H1 & H2 & H3 & H4 & H5 & H6 & H7 & H8) Hfs Hs.
   destruct (define_value_eq c Hru1 Hru2 Hru3 s (Glob s) Ptr false None st I) as (p' & E & Hp').
@@ -1161,7 +1171,7 @@ Proof.
   cbn [ts_ins ts_names ts_glob ts_loc ts_pend ts_next ts_funcs ts_blocks]. rewrite H6, H7. cbn [map].
   split; [rewrite H1; unfold E_glob; rewrite map_app; cbn [map]; now rewrite rev_unit|].
   split; [exact H2|]. split; [exact H3|]. split; [exact H4|].
-  assert (Ef : map (sub_func s (Glob s)) (ts_funcs st) = map (hide_func (gl ++ [s])) fs).
+  assert (Ef : map (sub_func s (Glob s)) (ts_funcs st) = map (hide_func c (gl ++ [s])) fs).
   { rewrite H5, map_map. apply map_ext_in. intros g Hg. apply sub_hide_func; auto. }
   split; [exact Ef|]. split; [reflexivity|]. split; [reflexivity|].
   intros g k j Hg Hk Hj. apply in_map_iff in Hg. destruct Hg as (g0 & <- & Hg0).
@@ -1235,9 +1245,9 @@ Variable gn : list string.
 Hypothesis Hgn : NoDup gn.
 
 Lemma func_ok gl fs f st :
-  MInv gl fs st -> (forall g, In g fs -> gok c fp fr gn g) -> gok c fp fr gn f ->
+  MInv c gl fs st -> (forall g, In g fs -> gok c fp fr gn g) -> gok c fp fr gn f ->
   In (f_name f) gn -> (forall s, In s (gl ++ [f_name f]) -> In s gn) -> NoDup (gl ++ [f_name f]) ->
-  exists st', resolve_func c fp (erase_func fr f) st = Ok st' /\ MInv (gl ++ [f_name f]) (fs ++ [f]) st'.
+  exists st', resolve_func c fp (erase_func fr c f) st = Ok st' /\ MInv c (gl ++ [f_name f]) (fs ++ [f]) st'.
 Proof.
   intros HM Hfs [Hf Hok] Hname Hgl Hnd. unfold resolve_func. cbn [erase_func rf_name rf_params rf_blocks rf_binding rf_ret].
   destruct (define_glob c Hru1 Hru2 Hru3 fp fr gn Hgn gl fs st (f_name f) HM Hfs Hname) as (st1 & E1 & HM1).
@@ -1250,10 +1260,10 @@ Proof.
   { intros p Hp. apply (w_disj _ _ Hf). unfold func_local_names. rewrite in_app_iff. left. now apply in_map. }
   destruct (params_ok c Hru1 Hru2 Hru3 gn (f_params f) 0%nat st2 Hhid P2 H8 eq_refl eq_refl) as (p3 & E3 & Hh3).
   rewrite E3. unfold st2. cbn [bind ts_glob ts_loc ts_next ts_names ts_funcs]. rewrite app_nil_r.
-  assert (Enames : map rb_name (map (erase_block fr f) (f_blocks f)) = map b_name (f_blocks f)) by (rewrite map_map; reflexivity).
+  assert (Enames : map rb_name (map (erase_block fr c f) (f_blocks f)) = map b_name (f_blocks f)) by (rewrite map_map; reflexivity).
   rewrite Enames.
   match goal with |- context [resolve_blocks _ _ _ _ ?s] => set (st3 := s) end.
-  assert (HI3 : Inv gl' (ts_funcs st1) f (dsof [] []) (map b_name []) (map (hide_block (vis gl' f (dsof [] [])) f) []) [] st3).
+  assert (HI3 : Inv gl' (ts_funcs st1) f (dsof [] []) (map b_name []) (map (hide_block c (vis gl' f (dsof [] [])) f) []) [] st3).
   { unfold Inv, st3. cbn [ts_ins ts_names ts_glob ts_loc ts_pend ts_next ts_funcs ts_blocks map dsof flat_map app instrs_defs List.length].
     split; [exact H1|]. split; [unfold E_loc, dentries; cbn [map]; now rewrite app_nil_r|]. split; [reflexivity|].
     split; [reflexivity|]. split; [reflexivity|]. split; [reflexivity|]. split; [reflexivity|].
@@ -1266,7 +1276,7 @@ Proof.
   split; [exact G1|]. split; [reflexivity|]. split; [reflexivity|]. split; [reflexivity|].
   assert (Efn : mk_func (f_name f) (f_binding f) (f_ret f)
                   (map (fun p : ty * string => (snd p, fst p)) (map (fun p : string * ty => (snd p, fst p)) (f_params f)))
-                  (ts_blocks st4) = hide_func gl' f).
+                  (ts_blocks st4) = hide_func c gl' f).
   { unfold hide_func. rewrite G6. f_equal. rewrite map_map. rewrite <- (map_id (f_params f)) at 2. apply map_ext. now intros []. }
   split; [rewrite G5, H5, Efn, map_app; reflexivity|]. split; [reflexivity|]. split; [reflexivity|].
   intros g k j Hg Hk Hj. rewrite G5 in Hg. apply in_app_or in Hg. destruct Hg as [Hg|[<-|[]]].
@@ -1286,13 +1296,13 @@ Variable fr : Z -> string.
 Variable gn : list string.
 Hypothesis Hgn : NoDup gn.
 
-Lemma minv_nil gl st s : MInv gl [] st -> In s gn ->
-  exists st', define_value c s (Glob s) Ptr false None st = Ok (None, st') /\ MInv (gl ++ [s]) [] st'.
+Lemma minv_nil gl st s : MInv c gl [] st -> In s gn ->
+  exists st', define_value c s (Glob s) Ptr false None st = Ok (None, st') /\ MInv c (gl ++ [s]) [] st'.
 Proof. intros H Hs. apply (define_glob c Hru1 Hru2 Hru3 fp fr gn Hgn gl [] st s H); [intros g []|exact Hs]. Qed.
 
-Lemma items_exts exts : forall gl st ae av rest, MInv gl [] st -> (forall e, In e exts -> In (ext_name e) gn) ->
+Lemma items_exts exts : forall gl st ae av rest, MInv c gl [] st -> (forall e, In e exts -> In (ext_name e) gn) ->
   exists st', resolve_items c fp (map RExt exts ++ rest) ae av st = resolve_items c fp rest (ae ++ exts) av st'
-              /\ MInv (gl ++ map ext_name exts) [] st'.
+              /\ MInv c (gl ++ map ext_name exts) [] st'.
 Proof.
   induction exts as [|e l IH]; intros gl st ae av rest HM He.
   - exists st. cbn. now rewrite !app_nil_r.
@@ -1317,11 +1327,11 @@ Proof.
     - apply ty_eqb_spec in Hp. now subst. }
   rewrite E. reflexivity.
 Qed.
-Lemma items_vars vars : forall gl st ae av rest, MInv gl [] st -> (forall g, In g vars -> In (g_name g) gn) ->
+Lemma items_vars vars : forall gl st ae av rest, MInv c gl [] st -> (forall g, In g vars -> In (g_name g) gn) ->
   (forall g, In g vars -> resolve_var (erase_var c g) = Ok (norm_var c g)) ->
   exists st', resolve_items c fp (map (fun g => RVar (erase_var c g)) vars ++ rest) ae av st
               = resolve_items c fp rest ae (av ++ map (norm_var c) vars) st'
-              /\ MInv (gl ++ map g_name vars) [] st'.
+              /\ MInv c (gl ++ map g_name vars) [] st'.
 Proof.
   induction vars as [|g l IH]; intros gl st ae av rest HM Hg Hv.
   - exists st. cbn. now rewrite !app_nil_r.
@@ -1332,10 +1342,10 @@ Proof.
     exists st2. rewrite E2, <- !app_assoc. cbn [app]. rewrite <- app_assoc in HM2. split; [reflexivity|exact HM2].
 Qed.
 
-Lemma items_funcs funcs : forall gl fs st ae av, MInv gl fs st -> gn = gl ++ map f_name funcs ->
+Lemma items_funcs funcs : forall gl fs st ae av, MInv c gl fs st -> gn = gl ++ map f_name funcs ->
   (forall g, In g fs -> gok c fp fr gn g) -> (forall g, In g funcs -> gok c fp fr gn g) ->
-  exists st', resolve_items c fp (map (fun f => RFunc (erase_func fr f)) funcs) ae av st = Ok (ae, av, st')
-              /\ MInv gn (fs ++ funcs) st'.
+  exists st', resolve_items c fp (map (fun f => RFunc (erase_func fr c f)) funcs) ae av st = Ok (ae, av, st')
+              /\ MInv c gn (fs ++ funcs) st'.
 Proof.
   induction funcs as [|f l IH]; intros gl fs st ae av HM Egn Hfs Hfu.
   - exists st. cbn in *. rewrite app_nil_r in *. subst gl. split; [reflexivity|exact HM].
@@ -1359,13 +1369,13 @@ Proof.
   assert (Hin : In (ref_name g r) gn) by (eapply hide_unres_gn; eauto).
   unfold vis in Ev. apply orb_false_iff in Ev. destruct Ev as [_ Ev]. apply mem_str_in in Hin. congruence.
 Qed.
-Lemma hide_func_full g : gok c fp fr gn g -> hide_func gn g = norm_func g.
+Lemma hide_func_full g : gok c fp fr gn g -> hide_func c gn g = norm_func c g.
 Proof.
   intros Hg. unfold hide_func, norm_func. f_equal. apply map_ext_in. intros k Hk. unfold hide_block. f_equal.
-  apply map_ext_in. intros j Hj. unfold hide_instr. transitivity (map_refs (fun r => r) (norm_instr g j)).
+  apply map_ext_in. intros j Hj. unfold hide_instr. transitivity (map_refs (fun r => r) (norm_instr c g j)).
   - apply map_refs_ext. intros r Hr. unfold hide. rewrite vis_full; [reflexivity|exact (proj1 Hg)|].
     apply norm_uses in Hr. exact (grefs c fp fr gn g Hg k j r Hk Hj Hr).
-  - generalize (norm_instr g j). intros i. destruct i; cbn; try reflexivity; rewrite ?map_id; try reflexivity.
+  - generalize (norm_instr c g j). intros i. destruct i; cbn; try reflexivity; rewrite ?map_id; try reflexivity.
     f_equal. rewrite <- (map_id ins) at 2. apply map_ext. now intros [].
 Qed.
 End M4.
@@ -1387,16 +1397,16 @@ Proof.
     apply andb_true_iff in Hpf. destruct Hpf as [Hpf _]. apply andb_true_iff in Hpf. destruct Hpf as [Hpf Hrp].
     apply andb_true_iff in Hpf. destruct Hpf as [_ Hci]. rewrite forallb_forall in Hci. rewrite forallb_map_r, forallb_forall in Hrp.
     intros j Hj. specialize (Hci j Hj). specialize (Hrp j Hj). apply andb_true_iff in Hci. destruct Hci as [Hc Hfl].
-    repeat split; auto; [exact (w_instr _ _ Hfw j Hj)|]. destruct j; cbn in Hrp; try exact I; discriminate. }
+    split; [exact (w_instr _ _ Hfw j Hj)|]. split; [exact Hc|]. split; [exact Hfl|exact Hrp]. }
   unfold resolve, erase. cbn [rm_items rm_name].
-  assert (HM0 : MInv [] [] tst0) by (unfold MInv, tst0; cbn; repeat split; auto; intros g k j []).
+  assert (HM0 : MInv c [] [] tst0) by (unfold MInv, tst0; cbn; repeat split; auto; intros g k j []).
   destruct (items_exts c Hru1 Hru2 Hru3 fp fr gn Hgn (m_externals m) [] tst0 [] []
-              (map (fun g => RVar (erase_var c g)) (m_vars m) ++ map (fun f => RFunc (erase_func fr f)) (m_funcs m)) HM0)
+              (map (fun g => RVar (erase_var c g)) (m_vars m) ++ map (fun f => RFunc (erase_func fr c f)) (m_funcs m)) HM0)
     as (st1 & E1 & HM1).
   { intros e He. unfold gn, global_names. rewrite in_app_iff. left. now apply in_map. }
   rewrite E1.
   destruct (items_vars c Hru1 Hru2 Hru3 fp fr gn Hgn (m_vars m) _ st1 ([] ++ m_externals m) []
-              (map (fun f => RFunc (erase_func fr f)) (m_funcs m)) HM1) as (st2 & E2 & HM2).
+              (map (fun f => RFunc (erase_func fr c f)) (m_funcs m)) HM1) as (st2 & E2 & HM2).
   { intros g Hg. unfold gn, global_names. rewrite !in_app_iff. right. left. now apply in_map. }
   { intros g Hg. apply (resolve_var_ok c gn g (Hwv g Hg)). intros Hi. unfold print_ok in Hpo. rewrite Hi in Hpo. cbn [negb orb] in Hpo.
     rewrite forallb_forall in Hpo. specialize (Hpo g Hg). destruct (g_value g); [exact Hpo|exact I]. }
